@@ -815,7 +815,7 @@ def shard_worker(args):
     return {"st": st, "vs": vs, "sample": sample, "accepted": sorted(acc), "rejected": sorted(set(rej) - set(acc))}
 
 
-LANES = 6
+LANES = 2
 
 
 def lane_worker(shards):
